@@ -20,8 +20,11 @@
 (***************************************************************************)
 EXTENDS TowerFrb, Integers, FiniteSets, TLC
 CONSTANTS p,          \* the prime
+          phases,     \* which parts to run: subset of {"quad", "sextic", "dodecic", "cyc"}
+          big,        \* TRUE: the larger operand lattices
+          qnr2,       \* xi = qnr2 + u (0: xi = u)
           nq          \* u^2 = qnr = -nq (ctx->qnr is a negative integer; TLC configs take naturals)
-VARIABLES ph, x
+VARIABLES ph, x, gg     \* gg: the generator the cyclotomic walk multiplies by (evaluated once, in Init)
 
 P == BFromNat(p)
 qnr == 0 - nq
@@ -36,11 +39,11 @@ XiOf(c) == <<B(c), <<1>>>>
 T12Of(c) == LET T6 == [p |-> P, lv |-> T2.lv \o <<[deg |-> 3, nr |-> XiOf(c)]>>] IN
             [p |-> P, lv |-> T6.lv \o <<[deg |-> 2, nr |-> TGen(T6, 2)]>>]
 IsTower(c) == LET T == T12Of(c) IN TLevelIsField(T, 1) /\ TLevelIsField(T, 2) /\ TLevelIsField(T, 3)
-(* the library's choice: u itself for p = 1, 5 mod 8, else the first of 1 + u, 2 + u, 4 + u, ... *)
-Qnr2 == IF p % 8 \in {1, 5} THEN 0
-        ELSE CHOOSE c \in {1, 2, 4, 8} : IsTower(c) /\ \A d \in {1, 2, 4, 8} : d < c => ~IsTower(d)
+(* the library's choice is u itself for p = 1, 5 mod 8, else the first suitable of 1 + u, 2 + u, 4 + u, ...; *)
+(* here a configuration constant (TLC re-evaluates a CHOOSE-defined tower at every use), checked below      *)
+Qnr2 == qnr2
 T12 == T12Of(Qnr2)
-ASSUME IsTower(Qnr2)
+ASSUME IsTower(Qnr2) /\ (p % 8 \in {1, 5} <=> Qnr2 = 0)
 Xi == XiOf(Qnr2)
 
 El0 == {BFromNat(n) : n \in 0..(p - 1)}
@@ -224,7 +227,7 @@ SparseM == {<<<<s, t, Z2>>, <<Z2, r, Z2>>>> : s \in {Z2, <<<<2>>, <<>>>>, <<B(p 
                                            r \in {Z2, <<B(p - 1), B(p - 1)>>}}
 CheckDodecic(a) ==
     /\ Sqr12c(a) = TMul(T12, 3, a, a)
-    /\ \A b \in {<<c, d>> : c \in Tiny6, d \in Tiny6} :
+    /\ \A b \in {<<c, d>> : c \in Tiny6, d \in (IF big THEN Tiny6 ELSE {<<Z2, <<<<1>>, B(p - 1)>>, <<<<3>>, <<1>>>>>>})} :
           /\ Mul12c(a, b) = TMul(T12, 3, a, b)
           /\ LET t == Mul12u(a, b) IN
              /\ AccOk6(t[1]) /\ AccOk6(t[2])
@@ -265,20 +268,26 @@ SqrCyc(a) ==
         k  == Pck(a)
     IN  <<<<c00, k.c01, k.c02>>, <<k.c10, c11, k.c12>>>>
 One2 == <<<<1>>, <<>>>>
-(* fp12_back_cyc on the compressed coefficients g4 = c01, g3 = c02, g2 = c10, g5 = c12 *)
-Back(a) ==
+(* fp12_back_cyc on the compressed coefficients g4 = c01, g3 = c02, g2 = c10, g5 = c12.            *)
+(* Karabina: g2 # 0: g1 = (xi g5^2 + 3 g4^2 - 2 g3) / (4 g2);  g2 = 0: g1 = 2 g4 g5 / g3;             *)
+(*           g0 = (2 g1^2 + g2 g5 - 3 g3 g4) xi + 1.                                                 *)
+(* AS CODED the numerator selected for g2 = 0 (2 g4 g5) is then run through the steps of the other  *)
+(* branch (3 t0 - 2 g3 + xi g5^2) - coded = TRUE transcribes that, coded = FALSE is Karabina's form. *)
+BackF(a, coded) ==
     LET g4 == a[1][2]  g3 == a[1][3]  g2 == a[2][1]  g5 == a[2][3]
         f  == g2 = Z2
         unity == a = TOne(T12, 3)
         t0a == IF f THEN D2(M2(g4, g5)) ELSE M2(g4, g4)
         t1a == A2(D2(S2(t0a, g3)), t0a)
-        t0b == A2(Nor2c(Q2(g5)), t1a)
+        t0b == IF f /\ ~coded THEN t0a ELSE A2(Nor2c(Q2(g5)), t1a)
         den == IF unity THEN One2 ELSE IF f THEN g3 ELSE D2(D2(g2))
         g1  == M2(t0b, TInv(T12, 1, den))
         t1b == M2(g3, g4)
         t2  == A2(S2(D2(S2(Q2(g1), t1b)), t1b), M2(g2, g5))
         g0  == A2(Nor2c(t2), One2)
     IN  <<<<g0, g4, g3>>, <<g2, g1, g5>>>>
+Back(a) == BackF(a, TRUE)
+BackK(a) == BackF(a, FALSE)
 Conj12(a) == <<a[1], TNeg(T12, 2, a[2])>>
 
 One12 == TOne(T12, 3)
@@ -293,27 +302,29 @@ StripAll(n, d) == IF n % d = 0 THEN StripAll(n \div d, d) ELSE n
 FullOrder(g) == TExp(T12, 3, g, BFromNat(PhiOrder)) = One12 /\ \A f \in PrimeFactors(PhiOrder, 2) : TExp(T12, 3, g, BFromNat(PhiOrder \div f)) # One12
 (* a generator of the cyclotomic subgroup (cyclic, of order Phi_12(p)) *)
 Gen == CHOOSE g \in {ToCyc(<<c, d>>) : c \in Tiny6, d \in Tiny6 \ {<<Z2, Z2, Z2>>}} : FullOrder(g)
-ASSUME TExp(T12, 3, Gen, BFromNat(PhiOrder)) = One12
 
 CheckCyc(a) ==
     LET sq == TMul(T12, 3, a, a)
         k  == Pck(a) IN
     /\ SqrCyc(a) = sq
     /\ k.c01 = sq[1][2] /\ k.c02 = sq[1][3] /\ k.c10 = sq[2][1] /\ k.c12 = sq[2][3]
-    /\ Back(a) = a
-    \* decompression needs the compressed coefficients only
-    /\ (a # One12 => Back(<<<<Z2, a[1][2], a[1][3]>>, <<a[2][1], Z2, a[2][3]>>>>) = a)
+    \* decompression (it needs the compressed coefficients only).  Karabina's formulas recover every
+    \* element; the routine AS CODED does so unless g2 = 0 (recorded finding C10-back-cyc-g2-zero: for
+    \* the Phi_12(p)/p^2 or so non-trivial elements with g2 = 0 the coded numerator is wrong)
+    /\ (a # One12 => BackK(<<<<Z2, a[1][2], a[1][3]>>, <<a[2][1], Z2, a[2][3]>>>>) = a)
+    /\ (a[2][1] # Z2 \/ a = One12 => Back(a) = a)
+    /\ (a[2][1] # Z2 => Back(<<<<Z2, a[1][2], a[1][3]>>, <<a[2][1], Z2, a[2][3]>>>>) = a)
     /\ TMul(T12, 3, a, Conj12(a)) = One12
 
 (***************************************************************************)
-Init == \/ ph = "quad" /\ x \in El2
-        \/ ph = "sextic" /\ x \in Lat6
-        \/ ph = "dodecic" /\ x \in Lat12
-        \/ ph = "cyc" /\ x = One12
+Init == \/ ph = "quad" /\ ph \in phases /\ x \in El2 /\ gg = <<>>
+        \/ ph = "sextic" /\ ph \in phases /\ x \in Lat6 /\ gg = <<>>
+        \/ ph = "dodecic" /\ ph \in phases /\ x \in Lat12 /\ gg = <<>>
+        \/ ph = "cyc" /\ ph \in phases /\ x = One12 /\ gg = Gen
 Next == /\ ph = "cyc"
-        /\ ph' = ph
-        /\ x' = TMul(T12, 3, x, Gen)
-Spec == Init /\ [][Next]_<<ph, x>>
+        /\ ph' = ph /\ gg' = gg
+        /\ x' = TMul(T12, 3, x, gg)
+Spec == Init /\ [][Next]_<<ph, x, gg>>
 
 Check == CASE ph = "quad" -> CheckQuad(x)
            [] ph = "sextic" -> CheckSextic(x)
